@@ -51,7 +51,7 @@ theorem append_range_dimension_using_self_refused_unchanged (c : Call) (f : File
 
 /-- what an accepted `RangeDimension.link_data_array` leaves: the complete link, no ticks -/
 theorem range_link_data_array_accepted (c : Call) (d : Dim) (n s : Nat)
-    (hg : ∀ g ∈ [Guard.rankMatches, .isSequence, .entriesPlain, .entriesStorable, .oneMinusOne, .oneNegative],
+    (hg : ∀ g ∈ [Guard.rankMatches, .sameFile, .isSequence, .entriesPlain, .entriesStorable, .oneMinusOne, .oneNegative],
       g.check c = none) :
     run c rangeLinkDataArray ⟨some d, n, s⟩ =
       (⟨some ⟨false, some ⟨c.newId, some true, some c.target, some c.idx.entries, none, some c.now, some c.now⟩⟩,
@@ -62,6 +62,11 @@ theorem range_link_data_array_accepted (c : Call) (d : Dim) (n s : Nat)
   have h4 := hg .oneMinusOne (by simp)
   have h5 := hg .oneNegative (by simp)
   have h6 := hg .entriesStorable (by simp)
+  have h7 := hg .sameFile (by simp)
+  have hof : c.otherFile = false := by
+    cases ho : c.otherFile with
+    | false => rfl
+    | true => simp [Guard.check, ho] at h7
   have hi : c.idx.iterable = true := by
     cases hc : c.idx.iterable with
     | true => rfl
@@ -70,7 +75,7 @@ theorem range_link_data_array_accepted (c : Call) (d : Dim) (n s : Nat)
     cases ha : c.idx.entries.all (·.storable) with
     | true => rfl
     | false => simp [Guard.check, hi, ha] at h6
-  simp [rangeLinkDataArray, run, step, h1, h2, h3, h4, h5, h6, hi, hst, File.mapLink]
+  simp [rangeLinkDataArray, run, step, h1, h2, h3, h4, h5, h6, h7, hi, hst, hof, File.mapLink]
 
 /-- the functions as they were before the type of the index was asked for up front (nixio 6f31aa5; the shape a
 loosened pre-check restores): the `Sequence` test of the `DimensionLink.index` setter is the first to ask -/
@@ -105,6 +110,24 @@ theorem entry_check_counterexample :
     safe linkDataArrayNoEntryCheck = false ∧
     (run fractionIndex linkDataArrayNoEntryCheck linkedDim).2 = some .typeError ∧
     (run fractionIndex linkDataArrayNoEntryCheck linkedDim).1 ≠ linkedDim := by
+  exact ⟨by decide +kernel, by decide +kernel, by decide +kernel⟩
+
+/-- the functions as they were before the file of the object was asked for up front (nixio before the repair of
+finding `C12-dimension-link-object-of-another-file`): `H5Group.create_link`, in the middle of
+`DimensionLink.create_new`, is the first to ask -/
+def linkDataArrayNoFileTest : List Step := linkDataArray.erase (.guard .sameFile)
+
+/-- a list index `[-1]`, the array offered lives in another open file -/
+def otherFileCall : Call :=
+  { duckIndex with idx := { duckIndex.idx with isSeq := true }, otherFile := true }
+
+/-- without the pre-check the discipline fails, and the refused call has removed the previous link and left a link
+group without target; the function as it is refuses the same call and the linked descriptor stands -/
+theorem link_file_test_counterexample :
+    safe linkDataArrayNoFileTest = false ∧
+    run otherFileCall linkDataArrayNoFileTest linkedDim =
+      (⟨some ⟨false, some ⟨9, some true, none, none, none, none, none⟩⟩, 2, 1⟩, some .valueError) ∧
+    run otherFileCall linkDataArray linkedDim = (linkedDim, some .valueError) := by
   exact ⟨by decide +kernel, by decide +kernel, by decide +kernel⟩
 
 /-! ## Non-vacuity -/
